@@ -127,9 +127,30 @@ def run_case(pid, p, rng, res, spec, tier):
             variants.append(('two-calls-refuse-from-3', {'forms': first, 'then_request': list(p.forms()), 'refuse_from': len([q for q in answers if q.split('.')[0] == first[0]]) + 3}, None))
         variants.append(('need_8962', {}, {'1040.need_8962': 'yes'}))
         variants.append(('oid', {}, {'1040.number_1099-oid': '1'}))
+        # lines asked for by name (`field_names`): an optional line of a form the return has, and a line of a form the
+        # return never brings in - the first must be computed, the second computed or the call aborts; "solved" without it is silent
+        if out.exc is None:
+            loaded = set(out.solver.forms)
+            opt = sorted(f.name() for fo in out.solver.forms.values() for f in fo.fields() if f.name() not in tv.stored and fo.name().split(':')[0] not in INPUT_FORM_NAMES)
+            absent = []
+            for c in sorted(hx.catalogue(year), key=lambda c: c.form_name):
+                if c.form_name not in {n.split(':')[0] for n in loaded} and c.form_name not in INPUT_FORM_NAMES:
+                    try:
+                        fo_ = c(instance='you') if c.form_name in ('8889', '8606') else c()
+                        req = [f.name() for f in fo_.required_fields()] or [f.name() for f in fo_.fields()]
+                        if req:
+                            absent.append(req[-1])
+                    except Exception:  # noqa
+                        pass
+            if opt:
+                variants.append(('asked-by-name:optional', {'field_names': [opt[rng.randrange(len(opt))]]}, None))
+            for a_ in rng.sample(absent, min(2, len(absent))):
+                variants.append(('asked-by-name:absent-form', {'field_names': [a_]}, None))
         for name, kw, ov in variants:
             q = fresh(ov)
             o2, tv2, _ = traced(q, **kw)
+            if kw.get('field_names'):
+                o2.field_names = list(kw['field_names'])
             res.evaluations += 1
             res.count('real_variant_' + name.split(':')[0].split('-')[0])
             res.count('real_' + drive.verdict_class(o2).split(':')[0])
